@@ -41,15 +41,19 @@ def coinsOfWallet (l : List SCoin) (w : Wid) : List SCoin := l.filter (fun c => 
 
 def total (l : List SCoin) (w : Wid) : Nat := ((coinsOfWallet l w).map (·.amt)).sum
 
+/-- the sequence lock of the output's own script: staking (frozen+1) and MASSIP-2 binding:
+    origin + lock − 1 < tip + 1 -/
+def seqOK (tip : Nat) (c : SCoin) : Bool :=
+  match c.cls with
+  | .stk f => decide (c.height + (f + 1) - 1 < tip + 1)
+  | .bindNew _ => decide (c.height + bindingLockedPeriod - 1 < tip + 1)
+  | _ => true
+
 /-- consensus maturity: may the block at height tip+1 spend this coin?
-    coinbase: blocksSincePrev ≥ CoinbaseMaturity;  sequence lock for staking (frozen+1) and for
-    MASSIP-2 binding: origin + lock − 1 < tip + 1. -/
+    coinbase: blocksSincePrev ≥ CoinbaseMaturity (checkTxInMaturity); AND, for every coin, the sequence lock
+    of its script (a staking / binding output of a coinbase needs both). -/
 def spendableAt (p : Params) (tip : Nat) (c : SCoin) : Bool :=
-  if c.cb then decide (tip + 1 - c.height ≥ p.cbMaturity)
-  else match c.cls with
-    | .stk f => decide (c.height + (f + 1) - 1 < tip + 1)
-    | .bindNew _ => decide (c.height + bindingLockedPeriod - 1 < tip + 1)
-    | _ => true
+  (if c.cb then decide (tip + 1 - c.height ≥ p.cbMaturity) else true) && seqOK tip c
 
 def kindOf (c : SCoin) : UClass := uclassOf c.cls
 
@@ -86,5 +90,31 @@ def deposits (own : Own) (chain : List Block) (w : Wid) : List Deposit :=
         | some (w', _) => if w' = w then some ⟨t.id, i, o.amt, b.height, o.cls, o.addr, spentOnChain t.id i⟩ else none
         | none => none
       else none)))
+
+-- ------------------------------------------------------------------ observations (GetUtxo item)
+
+/-- what GetUtxo shows of one coin: the fields the harness compares (tx:idx:amt:height:maturity:confs@addr) -/
+structure CoinObs where
+  tx : TxId
+  idx : Nat
+  amt : Nat
+  height : Nat
+  maturity : Nat
+  confs : Nat
+  addr : Addr
+  deriving DecidableEq, Repr, Inhabited
+
+/-- the model's GetUtxo item: read off the unspent index ⋈ credit table at synced height `sync` -/
+def obsM (sync : Nat) (c : Coin) : CoinObs :=
+  ⟨c.tx, c.idx, c.cred.amt, c.blk.height, c.cred.maturity, (confs sync c.blk.height) % 2^32, c.cred.sh⟩
+
+/-- the spec's GetUtxo item for a coin of the ledger of a chain with tip height `tip` -/
+def obsS (p : Params) (tip : Nat) (c : SCoin) : CoinObs :=
+  ⟨c.tx, c.idx, c.amt, c.height, (if c.cb then max p.cbMaturity c.cls.maturity else c.cls.maturity),
+   tip + 1 - c.height, c.addr⟩
+
+/-- the coins GetUtxo must list for wallet `w` (zero-value outputs are not listed) -/
+def utxosOf (own : Own) (chain : List Block) (w : Wid) : List SCoin :=
+  (coinsOfWallet (ledgerOf own chain) w).filter (fun c => decide (c.amt ≠ 0))
 
 end MW.Spec.Chain
